@@ -15,10 +15,10 @@ func harnessVFSSelfTest() {
 	verif_fs_mkdir(root + "/o")
 	verif_fs_write(root+"/o/s", []byte{1, 2})
 	verif_fs_write(root+"/d/f", []byte{3})
-	verif_fs_symlink(root+"/o", root+"/d/lo")        // link to a directory outside
-	verif_fs_symlink("../o/s", root+"/d/ls")          // relative link to a file
-	verif_fs_symlink("nowhere", root+"/d/dangling")   // dangling
-	verif_fs_symlink(".", root+"/d/self")             // link to its own directory
+	verif_fs_symlink(root+"/o", root+"/d/lo")       // link to a directory outside
+	verif_fs_symlink("../o/s", root+"/d/ls")        // relative link to a file
+	verif_fs_symlink("nowhere", root+"/d/dangling") // dangling
+	verif_fs_symlink(".", root+"/d/self")           // link to its own directory
 
 	// Lstat does not follow, Stat does
 	li, err := os.Lstat(root + "/d/lo")
